@@ -1,0 +1,27 @@
+//go:build verif
+
+// Contracts for package inject, checked by /verif/govc (DESIGN.md §2.2).
+// This file is comment-only: it cannot change the behaviour of any build.
+
+package inject
+
+// Abstract state of an Injector seen through the interface: a version counter that every mutation bumps
+// (callers that only need "the injector is a valid object" rely on nothing else).
+//@ ghost field Injector.version int
+
+//@ iface TypeMapper.Map(this, values) r
+//@   modifies this.version
+//@   ensures r == this
+//@ iface TypeMapper.MapTo(this, val, ifacePtr) r
+//@   modifies this.version
+//@   ensures r == this
+//@ iface TypeMapper.Set(this, typ, val) r
+//@   modifies this.version
+//@   ensures r == this
+//@ iface Injector.SetParent(this, parent)
+//@   modifies this.version
+
+//@ func New
+//@   props C03 C04
+//@   ensures result != nil && dyn(result) == type(*injector) && fresh(result)
+//@   ensures result.(*injector).parent == nil && result.(*injector).values != nil
